@@ -33,7 +33,7 @@ ASSUMPTIONS = ["binarizers are module-level functions of mon.binarizers (picklab
                "the fresh interpreter imports the same /repo tree (PYTHONPATH exported by mon.env)"]
 
 POINTS = ["before_fit", "after_fit", "after_partial_fit", "after_arm_change", "after_warm_start", "after_queries"]
-METHODS = ["deepcopy", "pickle2", "pickle3", "pickle4", "pickle5", "subprocess"]
+METHODS = ["deepcopy", "pickle2", "deepcopy", "pickle4", "pickle5", "subprocess", "deepcopy", "pickle3"]
 
 
 def child_run(m, ops, proto):
@@ -59,7 +59,7 @@ def child_run(m, ops, proto):
 def run_case(rs, ctx):
     l, p = gen.ALL_COMBOS[ctx.index % 48]
     point = POINTS[(ctx.index // 48 + ctx.index % 48) % 6]
-    method = METHODS[(ctx.index // 7) % 6]
+    method = METHODS[(ctx.index // 7) % 8]
     if method == "subprocess" and ctx.index % 3:
         method = "pickle%d" % (2 + ctx.index % 4)
     binz = gen.pick(rs, [None, "thr_inside", "thr_three"]) if l == "ts" else None
@@ -116,6 +116,13 @@ def run_case(rs, ctx):
         # a fork: a second copy goes its own way (other data) before the original continues; afterwards it must still answer
         # like a bandit that was rebuilt from the same history and never had anything to do with the original
         div = gen.gen_continuation(rs, cfg_cont, sh)
+        # both sides give every current arm (also arms that were still untrained when the copy was taken) new, different rows first
+        for seq in (div, cont):
+            sh_ = copy.deepcopy(sh)
+            pf = gen.gen_ops(rs, cfg_cont, sh_, 1, ["partial_fit"], train_rows=(len(sh_.arms), len(sh_.arms) + 4))
+            if pf:
+                pf[0]["d"][:len(sh_.arms)] = list(sh_.arms)
+                seq.insert(0, pf[0])
         R = gen.build(cfg)
         gen.run_ops(R, hist)
         try:
